@@ -210,6 +210,27 @@ INFO = {
     "C18-h": (["C18"], "caught as written", None),
     "C19-h": (["C19"], "missed at first", "operations of one document declare different defaults for a variable the request leaves out (reference depth per operation)"),
     "C20-h": (["C20"], "missed at first", "edit: an abstract result type narrowed to one of its possible object types"),
+    # round 9
+    "C01-i": (["C01", "C02"], "caught as written", None),
+    "C02-i": (["C02"], "missed at first", "quoted strings with an escaped backslash followed by what reads like an escape (`\\\\n`, `\\\\u0041`, `\\\\/`)"),
+    "C03-i": (["C03"], "caught as written", None),
+    "C04-i": (["C04"], "missed at first", "the same request text (hence, through the Document entry points, the same parsed tree) is run again with another assignment of its variables (`GD.revalued`)"),
+    "C05-i": (["C05"], "missed at first", "`duplicate-field-variant` also produces near misses of the written argument (a list one item longer / shorter, an object with one entry less, nested)"),
+    "C06-i": (["C06"], "missed at first", "oracle: the verdict of a text parsed with no_location equals that of the text parsed with positions; object types get a `shared` field with a type of their own and the mutation `shared-field-under-two-parents` selects it through two parents with textually equal selection sets"),
+    "C07-i": (["C07"], "missed at first", "structurally wrong values for enum positions include the members' own python values (ints, floats equal to them, bools, internal strings); enums may have a bool python value"),
+    "C08-i": (["C08", "C04"], "missed at first", "list values are handed over as lists, tuples, one-shot iterators or generators (chosen by response path, inner lists too)"),
+    "C09-i": (["C09", "C08"], "missed at first", "every other thread-pool schedule runs on a user-defined runtime that derives from BlockingRuntime and takes its methods from ThreadPoolRuntime"),
+    "C10-i": (["C10"], "missed at first", "resolver errors of a ResolverError subclass with a constructor of its own (two required parameters)"),
+    "C11-i": (["C11"], "caught as written", None),
+    "C12-i": (["C12"], "missed at first", "code-built input-object defaults are dicts whose key order is not the declared field order"),
+    "C13-i": (["C13"], "caught as written", None),
+    "C14-i": (["C14"], "caught as written", None),
+    "C15-i": (["C15"], "missed at first", "mode `code-discover` (only the types the library cannot find itself are passed to Schema), directive-only input / enum types (DirIn, DirE), oracle: every declared type is introspected and every referenced type is described"),
+    "C16-i": (["C16"], "missed at first", "middlewares that are value objects (equal and equally hashed across requests, per-request state) for half of the cases"),
+    "C17-i": (["C17"], "missed at first", "source streams that are sized containers of their ready events (falsy when freshly opened)"),
+    "C18-i": (["C18"], "caught as written", None),
+    "C19-i": (["C19"], "caught as written", None),
+    "C20-i": (["C20"], "caught as written", None),
 }
 RAN_C = ("tools/confirm_seed.sh (scratch worktree of /repo HEAD, /repo itself untouched because a background thorough run was using it): "
          "demo.py on the clean tree (exit 0), patch applied, repo test-suite (1895 passed), demo.py with the change (exit 1), "
@@ -217,7 +238,7 @@ RAN_C = ("tools/confirm_seed.sh (scratch worktree of /repo HEAD, /repo itself un
 for sid, (caught, first, strengthening) in sorted(INFO.items()):
     p = os.path.join(HERE, "seeded", sid, "meta.json")
     m = json.load(open(p))
-    m["what_i_ran"] = RAN_C if sid.endswith(("-c", "-d", "-e", "-f", "-g", "-h")) else RAN
+    m["what_i_ran"] = RAN_C if sid.endswith(("-c", "-d", "-e", "-f", "-g", "-h", "-i")) else RAN
     m["caught_by_quick_checks"] = caught
     m["first_round"] = first
     if strengthening:
